@@ -220,7 +220,8 @@ m("c16-stray-pubrec-no-guard", "C16", P, "                raise KeyError(respons
 m("c05-puback-ignores-qos", "C05 C16", P, "             if request.qos != 1:    # a QoS 2 message is acknowledged by PUBREC, never by PUBACK\n                 raise KeyError(response.msgId)\n", "")
 m("c18-deferred-before-refill", "C18", P, "            del self.factory.windowPublish[self.addr][response.msgId]\n            self._refillPublish(dup=False)\n            # the callback comes last: it may call back into the API (e.g. disconnect())\n            request.deferred.callback(request.msgId)\n",
   "            del self.factory.windowPublish[self.addr][response.msgId]\n            request.deferred.callback(request.msgId)\n            self._refillPublish(dup=False)\n")
-m("c13-ping-overwrites-pending-alarm", "C13", B, "        if self._pingReq.alarm is not None:\n            # the previous PINGREQ is still unanswered a whole keepalive period later\n", "        if False:\n            # the previous PINGREQ is still unanswered a whole keepalive period later\n")
+m("c13-ping-overwrites-pending-alarm", "C13 C15", B, "        if self._pingReq.alarm is not None:\n            # an earlier PINGREQ is still unanswered", "        if False:\n            # an earlier PINGREQ is still unanswered")
+m("rev-3b305fe-ping-aborts-when-earlier-unanswered", "C15", B, "            # runs just before the alarm due at the same moment): its deadline stands, do not lose track of it\n            return\n", "            # runs just before the alarm due at the same moment): its deadline stands, do not lose track of it\n            self._pingReq.alarm.cancel()\n            doPingError()\n            return\n")
 
 
 # Mutants that turned out to be equivalent with respect to the statements (kept for the record, not run)
@@ -231,7 +232,6 @@ EQUIVALENT = {
  "c03-min-header-1": "with one byte buffered the completeness test fails anyway and the loop waits",
  "c03-lenlen-scan-short": "the following incomplete-length test re-examines the byte the shortened scan skipped",
  "c11-new-protocol-inherits-session-mode": "connect() overwrites the inherited mode; a protocol lost before connect() is a documented don't-care",
- "c15-deadline-2k": "since fix 27 the next keepalive tick aborts when the previous deadline is still pending: abort still happens at k",
  "c15-first-ping-after-k": "first PINGREQ k seconds after CONNACK still satisfies 'at least every k seconds'",
  "c17-counter-reset-by-buildprotocol": "makeId skips identifiers still in use, so restarting the counter cannot collide",
  "c08-linear-k-shrinks": "since fix 32 the delay is clamped to the previous one: a shrinking K gives constant gaps, which the statement allows",
